@@ -332,7 +332,7 @@ Proof.
   + (* TStart *) inversion H; subst. inv_plain c s t G S IV Hpc.
   + (* TSize *) inversion H; subst. inv_plain c s t G S IV Hpc.
   + (* TPermit *) inversion H; subst. inv_ssem c s t G S IV Hpc.
-  + (* DStart *) inversion H; subst. inv_plain c s t G S IV Hpc.
+  + (* DStart *) destruct (closed s) eqn:Ecl; inversion H; subst; cbn [emit_destroyed]; inv_plain c s t G S IV Hpc.
   + (* DAvail *) inversion H; subst. inv_plain c s t G S IV Hpc.
   + (* DPermit *) inversion H; subst. inv_sem c s t G S IV Hpc.
   + (* DCheck *) destruct (closed s) eqn:Ec; inversion H; subst; inv_plain c s t G S IV Hpc.
